@@ -71,6 +71,28 @@ func VH_C04_constraints() {
 	rows = append(rows, vhRichRow{n.UUID(), st})
 	vhRichReads("C04.constraints.accepted", db, rows)
 	vhRichSearch("C04.constraints.accepted", db, rows, field, "=")
+	// a second restart: what a handle that only *loaded* the schema commits
+	// must be as good as what the creating handle wrote
+	db = vhReopen(db, root)
+	m := vhNewRich(2, "")
+	m.K, m.Q = 424242, "second-restart"
+	taken := false
+	for i := range rows {
+		taken = vOr(taken, vOr(rows[i].o.K == 424242, rows[i].o.Q == "second-restart"))
+	}
+	merr := db.InsertOrUpdate(m)
+	vAssert("C04.constraints.third_handle_writes", vIff(merr != nil, taken))
+	if merr != nil {
+		vAssert("C04.constraints.third_handle_class", IsUnique(merr))
+		return
+	}
+	dup := vhNewRich(1, "")
+	dup.K, dup.Q = 424242, "other"
+	vAssert("C04.constraints.third_handle_unique", IsUnique(db.InsertOrUpdate(dup)))
+	if merr == nil {
+		rows = append(rows, vhRichRow{m.UUID(), vhRichStored(m)})
+	}
+	vhRichReads("C04.constraints.third_handle", db, rows)
 }
 
 // vhC04Orders records what order-sensitive reads return on a handle.
